@@ -20,7 +20,11 @@ M["M1_colcheck_after_write_multi"] = ("fastparquet/api.py", '''        if isinst
             # Case 'hive' or 'drill'.
             write_multi(self.basepath, data, self.fmd,
                         row_group_offsets=row_group_offsets,
-                        compression=compression, file_scheme=self.file_scheme,
+                        compression=compression,
+                        # No row group left: the scheme cannot be read from
+                        # the paths; only hive datasets can be appended to.
+                        file_scheme=('hive' if self.file_scheme == 'empty'
+                                     else self.file_scheme),
                         write_fmd=False, open_with=open_with, mkdirs=mkdirs,
                         partition_on=partition_on, append=True, stats=stats)
 ''', '''        if (self.file_scheme == 'simple'
@@ -34,7 +38,11 @@ M["M1_colcheck_after_write_multi"] = ("fastparquet/api.py", '''        if isinst
             # Case 'hive' or 'drill'.
             write_multi(self.basepath, data, self.fmd,
                         row_group_offsets=row_group_offsets,
-                        compression=compression, file_scheme=self.file_scheme,
+                        compression=compression,
+                        # No row group left: the scheme cannot be read from
+                        # the paths; only hive datasets can be appended to.
+                        file_scheme=('hive' if self.file_scheme == 'empty'
+                                     else self.file_scheme),
                         write_fmd=False, open_with=open_with, mkdirs=mkdirs,
                         partition_on=partition_on, append=True, stats=stats)
         if isinstance(data, pd.DataFrame):
@@ -69,7 +77,7 @@ M["M5_fix_restores_at_wrong_place"] = ("fastparquet/writer.py", '''            e
 ''', '''            except BaseException:
                 f.seek(foot_start + 4)
 ''', "M")
-M["M6_partition_check_removed"] = ("fastparquet/writer.py", '''            if tuple(partition_on) != tuple(pf.cats):
+M["M6_partition_check_removed"] = ("fastparquet/writer.py", '''            if tuple(partition_on) != tuple(pf.partition_names):
                 raise ValueError('When appending, partitioning columns must '
                                  'match existing data')
 ''', "", "M")
@@ -97,10 +105,10 @@ M["N1_truncate_with_explicit_size"] = ("fastparquet/writer.py", '''             
 M["N2_checks_reordered"] = ("fastparquet/writer.py", '''            if pf.file_scheme not in ['hive', 'empty', 'flat']:
                 raise ValueError(f'Requested file scheme is {file_scheme}, but'
                                   ' existing file scheme is not.')
-            if tuple(partition_on) != tuple(pf.cats):
+            if tuple(partition_on) != tuple(pf.partition_names):
                 raise ValueError('When appending, partitioning columns must '
                                  'match existing data')
-''', '''            if tuple(partition_on) != tuple(pf.cats):
+''', '''            if tuple(partition_on) != tuple(pf.partition_names):
                 raise ValueError('When appending, partitioning columns must '
                                  'match existing data')
             if pf.file_scheme not in ('hive', 'empty', 'flat'):
@@ -148,4 +156,13 @@ M["M13_filter_check_last_or_group_only"] = ("fastparquet/api.py", '''    known =
 ''', "M")
 M["M14_selection_check_first_column_only"] = ("fastparquet/api.py", '''        check_column_names(self.columns + list(self.cats), columns, categories)
 ''', '''        check_column_names(self.columns + list(self.cats), columns[:1] if columns else columns, categories)
+''', "M")
+M["M15_find_type_accepts_kind_O_extension_dtypes"] = ("fastparquet/writer.py", '''                                       None, dtype.itemsize)
+    elif dtype == "O":
+        if object_encoding == 'infer':
+            object_encoding = infer_object_encoding(data)
+''', '''                                       None, dtype.itemsize)
+    elif dtype.kind == "O" and "str" not in str(dtype):
+        if object_encoding == 'infer':
+            object_encoding = infer_object_encoding(data)
 ''', "M")
